@@ -1872,7 +1872,7 @@ impl FunctionDef {
                     ))
                 };
                 // Create new environment that extends captured scope (O(1) instead of O(n) clone!)
-                let new_env = Rc::new(Environment::extend_with(parent_env, local_bindings));
+                let new_env = Rc::new(Environment::extend_call_frame(parent_env, local_bindings));
 
                 let return_value = evaluate_ast(
                     body,
